@@ -101,7 +101,7 @@ class Path:
         self.cons = {}
         self.end = None
         self.ret = None
-        self.tests = []   # (bb, tested value as text, edge label) for every branch decided on the path
+        self.tests = []   # (bb, tested value as text, edge label, value) for every branch decided on the path
 
     def tested(self, substr, label=None):
         """Branch decisions on this path whose tested value mentions substr."""
@@ -535,19 +535,19 @@ class Explorer:
                     lab, tb, upd = succs[0]
                     upd(p.cons)
                     p.labels.append(lab)
-                    p.tests.append((bb, vtxt, lab))
+                    p.tests.append((bb, vtxt, lab, v))
                     bb = tb
                     continue
                 for lab, tb, upd in succs[1:]:
                     q = self._fork(p)
                     upd(q.cons)
                     q.labels.append(lab)
-                    q.tests.append((bb, vtxt, lab))
+                    q.tests.append((bb, vtxt, lab, v))
                     self._walk(tb, q, visits, out)
                 lab, tb, upd = succs[0]
                 upd(p.cons)
                 p.labels.append(lab)
-                p.tests.append((bb, vtxt, lab))
+                p.tests.append((bb, vtxt, lab, v))
                 bb = tb
                 continue
             raise RuntimeError("unknown terminator " + k)
